@@ -9,6 +9,7 @@ use serde::{Deserialize, Serialize};
 use serde_json::{json, Value};
 
 use super::hard::{self, Contact};
+use super::history::{self, History};
 use crate::common::*;
 use crate::libx::{self, build_packed, HardGeom, Params, ShapeSpec};
 use crate::observe::spy::{Sink, Spy};
@@ -369,8 +370,45 @@ fn w4_cli(ctx: &Ctx, st: &mut Stats) {
     }
 }
 
+/// W5: one hard state object edited again and again, judged after every edit
+pub fn check_history(h: &History, st: &mut Stats) {
+    let before = st.violations.len();
+    fn go<S: HardGeom>(h: &History, shapes: Vec<S>, st: &mut Stats) {
+        if let Ok(state) = build_packed(shapes[0].clone(), &h.group, &h.start) {
+            history::drive(h, state, &shapes, st, |s, _step, six, p, st| {
+                let c = Case { group: h.group.clone(), shape: h.shapes[six].clone(), params: *p, workload: "W5-history".into() };
+                judge(s, &c, st);
+            });
+        }
+    }
+    if h.shapes.iter().all(|s| s.is_line()) {
+        go(h, h.shapes.iter().filter_map(|s| s.line()).collect::<Vec<_>>(), st);
+    } else {
+        let v: Vec<_> = h.shapes.iter().filter_map(|s| s.mol()).collect();
+        if v.len() == h.shapes.len() {
+            go(h, v, st);
+        }
+    }
+    history::rewrap(st, before, "c01.history", h);
+}
+
+pub fn gen_history<R: Rng>(rng: &mut R) -> History {
+    let (group, first, _) = rand_config(rng, true);
+    let n = rng.gen_range(1, 4);
+    let mut shapes = vec![first.clone()];
+    while shapes.len() < n {
+        let s = libx::gen::hard_shape(rng);
+        if s.is_line() == first.is_line() {
+            shapes.push(s);
+        }
+    }
+    // around contact: pooled lengths 2.5..40 x 0.25 x sqrt(copies)
+    let copies = groups::group(&group).unwrap().ops.len() as f64;
+    history::gen_history(rng, &group, shapes, false, 0.3 * copies.sqrt())
+}
+
 pub fn run(ctx: &Ctx) {
-    ctx.set_rule("W1 uniform states (7 groups x polygons 3..12 / circle / trimers x cells x sites incl. exact faces and special positions, cell area 0.8-2.5 x the copies' area); W2 boundary-focused: per configuration (copies 1e-5..1e-1 from cell faces, ratio down to 0.1, angle down to pi/6) the cell length is bisected to the oracle's first contact L* and the library is asked at L*(1-eps), eps in {1e-5,1e-3,1e-2,3e-2,0.1,0.2}, and at L*(1+1e-6); W3 real three-stage optimiser pipelines (hill-climb and CLI-shaped) observed through Spy: every stage result and a bounded sample of scored evaluations; W4 JSON files written by the CLI. Oracle: exhaustive image enumeration from cell heights + SAT/disc depth; event = library score defined while depth > 1e-9 (re-confirmed by polygon clipping / lens point). Non-trivial = scored states within 5% R of contact, and overlapping states (where a miss is possible); distinct by quantised parameters");
+    ctx.set_rule("W1 uniform states (7 groups x polygons 3..12 / circle / trimers x cells x sites incl. exact faces and special positions, cell area 0.8-2.5 x the copies' area); W2 boundary-focused: per configuration (copies 1e-5..1e-1 from cell faces, ratio down to 0.1, angle down to pi/6) the cell length is bisected to the oracle's first contact L* and the library is asked at L*(1-eps), eps in {1e-5,1e-3,1e-2,3e-2,0.1,0.2}, and at L*(1+1e-6); W3 real three-stage optimiser pipelines (hill-climb and CLI-shaped) observed through Spy: every stage result and a bounded sample of scored evaluations; W4 JSON files written by the CLI; W5 state objects that live through histories of 3-13 edits (several parameters at once - set, rescaled by powers of two, negated, nudged, exchanged, reset -, shape or cell replaced, clone(), JSON round trip), judged after every edit. Oracle: exhaustive image enumeration from cell heights + SAT/disc depth; event = library score defined while depth > 1e-9 (re-confirmed by polygon clipping / lens point). Non-trivial = scored states within 5% R of contact, and overlapping states (where a miss is possible); distinct by quantised parameters");
     ctx.assume("convex regular polygons and unions of discs; placements are taken from cartesian_positions() (their correctness is C04/C14/C15)");
     let tier = ctx.tier;
     // per shard (64 shards)
@@ -384,6 +422,9 @@ pub fn run(ctx: &Ctx) {
         }
         for _ in 0..n2 {
             dispatch_w(2, rng, st);
+        }
+        for _ in 0..n1 / 30 {
+            check_history(&gen_history(rng), st);
         }
     });
     let prev = std::panic::take_hook();
@@ -403,6 +444,11 @@ pub fn run(ctx: &Ctx) {
 pub fn replay(ctx: &Ctx, case: &Value) {
     // the witness carries the full state as the library serialised it
     let mut st = Stats::new();
+    if let Ok(h) = serde_json::from_value::<History>(case.clone()) {
+        check_history(&h, &mut st);
+        ctx.merge(st);
+        return;
+    }
     let c: Option<Case> = serde_json::from_value(case["case"].clone()).ok();
     if let Some(c) = c {
         let js = case["state"].clone();
